@@ -489,6 +489,14 @@ fn gen_utf8_text(ctx: &Ctx, rep: &mut Report, r: &mut Rng) {
 }
 
 pub fn run(ctx: &Ctx, rep: &mut Report) {
+    // one very long unarmor call (std build, one shard): past 2^31 bits a signed 32-bit bit offset
+    // overflows; only a panic counts here (the value is C03's)
+    if mon::CFG == "std" && ctx.shard == 0 {
+        super::c03::big_unarmor_probe(rep, PID, 357_913_942 + 10, false);
+        if ctx.thorough() {
+            super::c03::big_unarmor_probe(rep, PID, 715_827_883 + 9, false);
+        }
+    }
     let mut r = ctx.rng("c01");
     gen_utf8_text(ctx, rep, &mut r);
     gen_huge(ctx, rep, &mut r);
